@@ -2,6 +2,9 @@
 from __future__ import annotations
 
 import ast
+import math
+import random
+import re
 
 from ..loops import dotted
 from ..nf import NF, Scope, Poly, parse_expr
@@ -9,13 +12,18 @@ from ..repo import Repo, loc, short, AnalysisError, positional_params, param_nam
 from ..resolve import Resolver
 from ..sem import same_ingredients, ingredient_tokens
 
-BASIC_EXTRAS = {"sum", "mean", "max", "min", "maximum", "minimum", "abs", "square", "exp", "log", "sqrt", "q1", "q2", "stop_gradient", "squeeze", "axis", "jnp", "jax", "numpy", "lax"}
+BASIC_EXTRAS = {"sum", "mean", "max", "min", "maximum", "minimum", "abs", "square", "exp", "log", "sqrt", "q1", "q2", "stop_gradient", "squeeze", "axis", "jnp", "jax", "numpy", "lax",
+                "tanh", "sigmoid", "softplus", "relu", "nnx", "nn"}
 from ..sympath import enumerate_paths, PathEval
 from .c05 import grad_sites
 
 EXPLANATION = (
     "Each actor objective is normalised (def-use and callee inlining, squared errors as atoms) and compared, as a polynomial identity "
-    "over its own parameters, with the documented formula written as a spec expression that is normalised by the same engine. The "
+    "over its own parameters, with the documented formula written as a spec expression that is normalised by the same engine (the spec "
+    "is written with the parameter names of the recorded signatures and follows renamed parameters). Two normal forms that differ are "
+    "a violation only when the objective is built from exactly the documented quantities (same uninterpreted calls, other known "
+    "functions) and differs in value at reproducible random points, where exp / log / min / max / clip / abs / squares / mean / sum "
+    "are computed; equal values at every point are an equivalent spelling; anything else is not read (undecided). The "
     "gradient clauses are structural: the differentiated argument of every actor update is the actor parameter (argnums through the "
     "loss signature); weights, advantages, old log-probabilities and Q-values enter the differentiated function as plain arguments "
     "computed outside it (constants of the gradient by construction), which is checked per CFG path for the three policy-gradient "
@@ -32,6 +40,8 @@ RULES = {
     "R5-value-shapes": "the PPO value term subtracts arrays of equal rank (no (N,)-(N,1) broadcast)",
 }
 
+# All specs, role tables and shape environments below are written with the parameter names of the RECORDED signatures
+# (known_signatures.json); _renames() maps them to the names the analysed tree uses (a renamed parameter keeps its role).
 LQ = "rl_blox.blox.losses."
 FORMULAS = {
     LQ + "stochastic_policy_gradient_pseudo_loss": ("R1-pseudo-loss", "-jnp.mean(weight * policy.log_probability(observation, action))"),
@@ -50,7 +60,16 @@ FORMULAS = {
                   "jnp.clip(jnp.exp(actor.log_probability(observations, actions) - old_logps), 1 - clip, 1 + clip) * advantages)) "
                   "+ 0.5 * jnp.mean((returns - critic(observations)) ** 2) - 0.01 * actor.entropy(observations).mean()"),
 }
-# (update routine, loss, actor parameter of the loss)
+MRQ_SPEC = "-q(encoder.encode_zsa(zs, policy.scale_output(policy.policy_net(zs)))).mean() + activation_weight * jnp.square(policy.policy_net(zs)).mean()"
+# quantities that are documented as one number (not one value per sample): a mean may be taken before or after multiplying by them
+SCALARS = {
+    "rl_blox.algorithm.sac.sac_actor_loss": ["alpha"],
+    "rl_blox.algorithm.sac.sac_exploration_loss": ["alpha()", "target_entropy"],
+    "rl_blox.algorithm.ppo.ppo_loss": ["clip"],
+    "rl_blox.algorithm.mrq.mrq_policy_loss": ["activation_weight"],
+    "rl_blox.algorithm.actor_critic.actor_critic_policy_gradient": ["gamma"],
+}
+# (update routine, loss, actor parameter(s) of the loss)
 ACTOR_SITES = {
     "rl_blox.algorithm.ddpg.ddpg_update_actor": (LQ + "deterministic_policy_gradient_loss", ["policy"]),
     "rl_blox.algorithm.td7.td7_update_actor": ("rl_blox.algorithm.td7.deterministic_policy_gradient_loss_sale", ["actor"]),
@@ -72,34 +91,326 @@ def _env(fn):
     return {p: Poly.atom(p, {p}, {p}) for p in param_names(fn)}
 
 
+# ---- recorded parameter names -> names of the analysed tree ---------------------------------------------------------------------------
+def _recorded(repo, q):
+    from ..specialise import load_signatures
+    rec = load_signatures().get(q)
+    return list(rec) if rec else param_names(repo.func(q))
+
+
+def _renames(repo, q) -> dict:
+    """Recorded parameter name -> current parameter name of function ``q``.  A recorded name that still exists keeps itself (also
+    when the parameters were reordered); recorded names that are gone are matched, in order, with the names that are new."""
+    fn = repo.func(q)
+    cur = param_names(fn)
+    rec = _recorded(repo, q)
+    gone = [r for r in rec if r not in cur]
+    ren = {r: r for r in rec if r in cur}
+    if gone:
+        new = [c for c in cur if c not in rec]
+        if len(new) != len(gone):
+            a = fn.args
+            pos = a.posonlyargs + a.args
+            dflt = {x.arg for x in pos[len(pos) - len(a.defaults):]} | {x.arg for x, d in zip(a.kwonlyargs, a.kw_defaults) if d is not None}
+            new = [c for c in new if c not in dflt]       # options added later are not renamed parameters
+        if len(new) != len(gone):
+            raise AnalysisError(f"{q}: the recorded parameters {gone} are gone and cannot be matched with the signature {cur} (unrecognised form)")
+        ren.update(zip(gone, new))
+    return ren
+
+
+def _spec(text: str, ren: dict) -> ast.AST:
+    """Spec expression (recorded names) as an expression over the current names."""
+    e = parse_expr(text)
+    for n in ast.walk(e):
+        if isinstance(n, ast.Name) and n.id in ren:
+            n.id = ren[n.id]
+    return e
+
+
+def _return_poly(nf, q, env):
+    try:
+        return nf.return_poly(q, env)
+    except ValueError as e:
+        raise AnalysisError(f"{q}: the returned value is not read ({e}) (unrecognised form)")
+
+
+# ---- deciding "same value" ------------------------------------------------------------------------------------------------------------
+# Equal normal forms: the same function.  Different normal forms are only evidence of a different value when the value that was
+# read is made of exactly the documented quantities: then both sides are computed at random points (the functions below are
+# computed, every other atom is a reproducible random quantity shared by both sides).  Equal at every point: another spelling of
+# the documented value.  Different at some point: a witness of the violation.  Everything else is not read here (AnalysisError).
+_UNARY = {"exp", "log", "abs", "sq", "mean", "sum", "zeros_like", "ones_like", "tanh", "sigmoid", "softplus", "relu"}
+_REDUCE = {"max", "min", "amax", "amin"}
+_BINARY = {"minimum", "maximum"}
+_COMPUTED = _UNARY | _REDUCE | _BINARY | {"clip", "pow"}
+_SCALAR_RESULT = {"std", "var", "median", "norm", "len"}
+_CARRIERS = {"attr", "subscript", "proj", "T"}
+KNOWN_OTHER = {"q1", "q2"}     # documented alternatives with another meaning (one critic instead of the clipped pair)
+_N, _ROUNDS = 7, 6
+
+
+class _NotComputable(Exception):
+    pass
+
+
+def _computed(nf, a):
+    """(function, argument polys) when atom ``a`` is an application this rule computes, else None."""
+    m = nf.meta.get(a)
+    if not m or m.get("kws"):
+        return None
+    f, args = m.get("fn", ""), list(m.get("args", []))
+    if any(x.elems is not None for x in args):
+        return None
+    if (f in _UNARY and len(args) == 1) or (f in _REDUCE and len(args) >= 1) or (f in _BINARY and len(args) == 2) or (f == "clip" and len(args) == 3) \
+            or (f == "pow" and len(args) == 2 and args[1].is_const()):
+        return f, args
+    return None
+
+
+def _reachable(nf, p, out=None) -> set:
+    """Atoms of a normal form, including those inside the arguments of its applications."""
+    out = set() if out is None else out
+    if p.elems is not None:
+        for x in p.elems:
+            _reachable(nf, x, out)
+        return out
+    for a in p.atoms():
+        if a in out:
+            continue
+        out.add(a)
+        m = nf.meta.get(a)
+        if m:
+            for x in list(m.get("args", [])) + list(m.get("kws", {}).values()):
+                if isinstance(x, Poly):
+                    _reachable(nf, x, out)
+    return out
+
+
+def _is_name(a: str) -> bool:
+    return all(part.isidentifier() for part in a.split("."))
+
+
+def _only_documented_quantities(nf, got, wants):
+    """Raises unless every atom of ``got`` is a documented quantity, a computed function, or a quantity that is known to be another
+    one (the documented function applied to other arguments, a documented alternative).  Another carrier of possibly the same
+    quantity - a subscript, an attribute, a call spelled with other keywords, an unknown function - is not evidence."""
+    W = set()
+    for w in wants:
+        _reachable(nf, w, W)
+    wcalls = {}
+    for w in W:
+        m = nf.meta.get(w)
+        if m and _computed(nf, w) is None and m.get("fn") not in _CARRIERS:
+            wcalls.setdefault(m.get("fn"), []).append(m)
+    for g in sorted(_reachable(nf, got)):
+        if g in W or _computed(nf, g) is not None:
+            continue
+        m = nf.meta.get(g)
+        if m is None:
+            if _is_name(g):
+                continue     # a bare name: the ingredient test has admitted it
+            raise AnalysisError(f"`{g[:60]}` is not a documented quantity")
+        f = m.get("fn", "")
+        if f in _CARRIERS or f in _COMPUTED:
+            raise AnalysisError(f"`{g[:60]}` may be another way to read a documented quantity")
+        if f in wcalls:
+            vals = sorted(x.canon() for x in list(m.get("args", [])) + list(m.get("kws", {}).values()))
+            for w in wcalls[f]:
+                if (m.get("kws") or w.get("kws")) and vals == sorted(x.canon() for x in list(w.get("args", [])) + list(w.get("kws", {}).values())):
+                    raise AnalysisError(f"`{g[:60]}` may be the documented call spelled with other keywords")
+            continue         # the documented function applied to other arguments
+        if f.split(".")[-1] in KNOWN_OTHER:
+            continue
+        raise AnalysisError(f"`{f[:40]}(...)` is not a documented building block")
+
+
+def _ew(f, *xs):
+    n = max((len(x) for x in xs if isinstance(x, list)), default=None)
+    if n is None:
+        return f(*xs)
+    return [f(*[(x[i] if isinstance(x, list) else x) for x in xs]) for i in range(n)]
+
+
+def _flat(x):
+    return x if isinstance(x, list) else [x]
+
+
+class _Point:
+    """One random point: every quantity that is not computed gets a reproducible random value - one value per sample, or one number
+    for the documented scalars - that depends on its canonical text only (the same quantity has the same value on both sides)."""
+
+    def __init__(self, nf, seed, scalars=()):
+        self.nf, self.seed, self.scalars, self.memo = nf, seed, set(scalars), {}
+
+    def leaf(self, text):
+        r = random.Random(f"c12|{self.seed}|{text}")
+        m = self.nf.meta.get(text) or {}
+        one = text in self.scalars or (m.get("fn", "") in _SCALAR_RESULT and not m.get("kws") and len(m.get("args", [])) == 1)
+        vals = [r.choice((-1.0, 1.0)) * r.uniform(0.3, 1.7) for _ in range(_N)]
+        return vals[0] if one else vals
+
+    def poly(self, p):
+        if p.elems is not None:
+            raise _NotComputable("tuple")
+        tot = 0.0
+        for mono, c in p.terms.items():
+            t = float(c)
+            for a, k in mono:
+                t = _ew(lambda x, y: x * y ** k, t, self.atom(a))
+            tot = _ew(lambda x, y: x + y, tot, t)
+        return tot
+
+    def atom(self, a):
+        if a not in self.memo:
+            self.memo[a] = self._atom(a)
+        return self.memo[a]
+
+    def _atom(self, a):
+        c = _computed(self.nf, a)
+        if c is None:
+            return self.leaf(a)
+        f, args = c
+        v = [self.poly(x) for x in args]
+        if f == "exp":
+            return _ew(math.exp, v[0])
+        if f == "log":
+            if min(_flat(v[0])) <= 0:
+                raise _NotComputable("log")
+            return _ew(math.log, v[0])
+        if f == "abs":
+            return _ew(abs, v[0])
+        if f in ("tanh", "sigmoid", "softplus", "relu"):
+            return _ew({"tanh": math.tanh, "sigmoid": lambda x: 1.0 / (1.0 + math.exp(-x)), "softplus": lambda x: math.log1p(math.exp(x)), "relu": lambda x: max(x, 0.0)}[f], v[0])
+        if f == "sq":
+            return _ew(lambda x: x * x, v[0])
+        if f == "mean":
+            return sum(_flat(v[0])) / len(_flat(v[0]))
+        if f == "sum":
+            return sum(_flat(v[0]))
+        if f == "zeros_like":
+            return _ew(lambda x: 0.0, v[0])
+        if f == "ones_like":
+            return _ew(lambda x: 1.0, v[0])
+        if f in _REDUCE and len(v) == 1:
+            return (max if f in ("max", "amax") else min)(_flat(v[0]))
+        if f in _REDUCE or f in _BINARY:
+            return _ew(max if f in ("max", "amax", "maximum") else min, *v)
+        if f == "clip":     # canonical form: clip(a, b, hi) == minimum(maximum(a, b), hi)
+            return _ew(lambda x, y, z: min(max(x, y), z), *v)
+        if f == "pow":
+            e = float(args[1].const_value())
+            if e != int(e) and min(_flat(v[0])) <= 0:
+                raise _NotComputable("pow")
+            return _ew(lambda x: x ** e, v[0])
+        raise _NotComputable(f)
+
+
+def _witness(nf, got, want, scalars):
+    """None when both normal forms have the same value at every random point, else a description of one point where they differ."""
+    for seed in range(_ROUNDS):
+        pt = _Point(nf, seed, scalars)
+        try:
+            g, w = pt.poly(got), pt.poly(want)
+        except (_NotComputable, ZeroDivisionError, OverflowError, ValueError, TypeError) as e:
+            raise AnalysisError(f"the value cannot be computed ({type(e).__name__}: {e})")
+        d = _ew(lambda x, y: (x, y), g, w)
+        for x, y in _flat(d) if isinstance(d, list) else [d]:
+            if not (math.isfinite(x) and math.isfinite(y)):
+                raise AnalysisError("the value cannot be computed (not finite)")
+            if abs(x - y) > 1e-9 * max(1.0, abs(x), abs(y)):
+                return f"{x:.6g} instead of {y:.6g} at a random point of the documented quantities"
+    return None
+
+
+_UNREAD = re.compile(r"φ\(|⟦|λ\[|__i\d+\b")
+
+
+def _same_value(nf, site, what, got, wants, scalars=(), extras=BASIC_EXTRAS):
+    """(True, note) when ``got`` is one of the documented values ``wants`` (equal normal form, or equal value at every random point);
+    (False, witness) when it is made of the documented quantities and has another value; AnalysisError when it is not read."""
+    if any(got == w for w in wants):
+        return True, ""
+    c = got.canon()
+    try:
+        if got.elems is not None or _UNREAD.search(c):
+            raise AnalysisError("it contains a part that was not read")
+        allowed = set(extras)
+        for w in wants:
+            allowed |= ingredient_tokens(w)
+        extra = ingredient_tokens(got) - allowed
+        if extra:
+            raise AnalysisError(f"{sorted(extra)[:4]} are not documented building blocks")
+        _only_documented_quantities(nf, got, wants)
+        first = None
+        for w in wants:
+            r = _witness(nf, got, w, scalars)
+            if r is None:
+                return True, f"another spelling of `{w.canon()[:100]}` (equal at {_ROUNDS}x{_N} random points)"
+            first = first or f"{r}; difference of the normal forms `{(got - w).canon()[:160]}`"
+        return False, first
+    except AnalysisError as e:
+        raise AnalysisError(f"{site}: {what} `{c[:120]}` is not compared with the documented value: {e} (unrecognised form)")
+
+
+def _decide(ck, nf, rule, site, key, what, got, wants, why, where, scalars=(), extras=BASIC_EXTRAS, shown=None):
+    ok, note = _same_value(nf, site, what, got, wants, scalars, extras)
+    ck.ob(rule, site, key, ok, (shown or got.canon()[:170]) + (f"   [{note}]" if ok and note else ""), "" if ok else f"{why}: {note}", where)
+    return ok
+
+
 def check_formula(ck, repo, nf, q, rule, spec):
     fn = repo.func(q)
     mi = fn._module
     env = _env(fn)
-    got = nf.return_poly(q, env)
+    ren = _renames(repo, q)
+    got = _return_poly(nf, q, env)
     if got.elems is not None:
         got = got.elems[0]
-    want = nf.poly(parse_expr(spec), Scope(None, mi, env, q), None)
-    ok = got == want
-    why = ""
-    if not ok:
-        # functions with known, different meaning may replace documented ones (sum for mean, maximum for minimum, one critic for both);
-        # anything else - in particular size-like quantities that could rebuild a mean from a sum - leaves the comparison undecided
-        extra = ingredient_tokens(got) - ingredient_tokens(want)
-        if not extra <= BASIC_EXTRAS:
-            raise AnalysisError(f"{q}: objective `{got.canon()[:120]}` is not written with the documented building blocks (unrecognised form)")
-        d = got - want
-        why = f"objective differs from the documented one by `{d.canon()[:200]}`"
-    ck.ob(rule, q, "objective-identity", ok, f"{got.canon()[:170]}", why, loc(mi, fn))
+    sc0 = Scope(None, mi, env, q)
+    want = nf.poly(_spec(spec, ren), sc0, None)
+    scalars = {nf.poly(_spec(s, ren), sc0, None).canon() for s in SCALARS.get(q, ())}
+    # functions with known, different meaning may replace documented ones (sum for mean, maximum for minimum, one critic for both);
+    # anything else - in particular size-like quantities that could rebuild a mean from a sum - leaves the comparison undecided
+    _decide(ck, nf, rule, q, "objective-identity", "objective", got, [want], "objective differs from the documented one", loc(mi, fn), scalars)
     return got
+
+
+def _differentiated(q) -> list:
+    """Recorded names of the parameters of loss ``q`` with respect to which it is differentiated."""
+    out = []
+    for lq, ps in list(ACTOR_SITES.values()) + [("rl_blox.algorithm.mrq.mrq_policy_loss", ["policy"])]:
+        if lq == q:
+            out += [p for p in ps if p not in out]
+    return out
+
+
+def check_gradient_path(ck, repo, nfg, q, rule):
+    """The documented objectives contain no stop_gradient: every occurrence of the differentiated parameter contributes to the
+    gradient.  A stop_gradient around a quantity that is computed from the differentiated parameter (directly or in an inlined
+    helper) removes a documented part of the gradient while the value stays the same.  ``nfg`` tracks stop_gradient (atoms ⊥x)."""
+    fn = repo.func(q)
+    ren = _renames(repo, q)
+    actors = {ren[p] for p in _differentiated(q)}
+    got = _return_poly(nfg, q, _env(fn))
+    if got.elems is not None:
+        got = got.elems[0]
+    blocked = sorted(a for a in _reachable(nfg, got) if a.startswith("⊥") and nfg.atom_deps(a) & actors)
+    ck.ob(rule, q, "gradient-not-blocked", not blocked, f"stop_gradient on quantities computed from {sorted(actors)}: {[b[1:70] for b in blocked[:3]] or 'none'}",
+          "" if not blocked else f"the gradient with respect to {sorted(actors)} does not pass through `{blocked[0][1:90]}` (stop_gradient), the documented objective differentiates every occurrence", loc(fn._module, fn))
 
 
 def run(ck, repo: Repo, tier: str):
     nf = NF(repo, inline_depth=4)
     nf.expand_squares = False
     res = Resolver(repo)
+    nfg = NF(repo, inline_depth=4)
+    nfg.expand_squares = False
+    nfg.track_sg = True
     for q, (rule, spec) in FORMULAS.items():
         ck.guard(check_formula, ck, repo, nf, q, rule, spec)
+        ck.guard(check_gradient_path, ck, repo, nfg, q, rule)
+    ck.guard(check_gradient_path, ck, repo, nfg, "rl_blox.algorithm.mrq.mrq_policy_loss", "R3-dpg")
     ck.floor("objective-formulas", len(FORMULAS), 6)
 
     def _section_1():
@@ -107,58 +418,101 @@ def run(ck, repo: Repo, tier: str):
         q = "rl_blox.algorithm.mrq.mrq_policy_loss"
         fn = repo.func(q)
         env = _env(fn)
-        got = nf.return_poly(q, env)
-        ck.need(got.elems is not None, f"{q}: result is not a tuple")
-        want = nf.poly(parse_expr("-q(encoder.encode_zsa(zs, policy.scale_output(policy.policy_net(zs)))).mean() + activation_weight * jnp.square(policy.policy_net(zs)).mean()"),
-                       Scope(None, fn._module, env, q), None)
-        ok = got.elems[0] == want
-        ck.ob("R3-dpg", q, "objective-identity", ok, got.elems[0].canon()[:170], "" if ok else f"differs from -mean(q(zsa(zs, pi(zs)))) + w*mean(pre-activation^2) by `{(got.elems[0] - want).canon()[:160]}`", loc(fn._module, fn))
+        ren = _renames(repo, q)
+        got = _return_poly(nf, q, env)
+        ck.need(got.elems is not None, f"{q}: result is not a tuple (unrecognised form)")
+        sc0 = Scope(None, fn._module, env, q)
+        want = nf.poly(_spec(MRQ_SPEC, ren), sc0, None)
+        scalars = {nf.poly(_spec(s, ren), sc0, None).canon() for s in SCALARS.get(q, ())}
+        _decide(ck, nf, "R3-dpg", q, "objective-identity", "objective", got.elems[0], [want], "differs from -mean(q(zsa(zs, pi(zs)))) + w*mean(pre-activation^2)", loc(fn._module, fn), scalars)
     ck.guard(_section_1)
 
     def _section_2():
         # ---- EntropyCoefficient ------------------------------------------------------------------------------------
-        m = repo.method("rl_blox.algorithm.sac.EntropyCoefficient", "__call__", inherited=False)
+        cq = "rl_blox.algorithm.sac.EntropyCoefficient"
+        m = repo.method(cq, "__call__")
         ck.need(m is not None, "EntropyCoefficient.__call__ not found")
-        rets = [n for n in ast.walk(m[1]) if isinstance(n, ast.Return)]
-        txt = ast.unparse(rets[0].value) if rets else ""
-        ok = txt in ("jnp.exp(self.log_alpha.value)", "jnp.exp(self.log_alpha)")
-        ck.ob("R4-sac", "rl_blox.algorithm.sac.EntropyCoefficient.__call__", "alpha-is-exp-log-alpha", ok, f"return {txt}", "" if ok else "alpha must be exp(log_alpha) (positive, trained in log space)", loc(m[1]._module, m[1]))
+        owner, f = m
+        f._module = repo.cls(owner)._module
+        qual = f"{cq}.__call__"
+        cfg = nf.cfg_of(f)
+        env = {"self": Poly.atom("self", {"self"}, {"self"})}
+        sc = Scope(cfg, f._module, env, qual, self_class=cq)
+        sc.inline_self_attrs = False
+        rets = [n for n in cfg.nodes if n.kind == "stmt" and isinstance(n.ast, ast.Return) and n.ast.value is not None]
+        ck.need(len(rets) == 1, f"{qual}: {len(rets)} return statements (unrecognised form)")
+        got = nf.poly(rets[0].ast.value, sc, rets[0].id)
+        sc0 = Scope(None, f._module, env, qual, self_class=cq)
+        sc0.inline_self_attrs = False
+        # the three ways to read the array of an nnx.Param
+        wants = [nf.poly(parse_expr(t), sc0, None) for t in ("jnp.exp(self.log_alpha.value)", "jnp.exp(self.log_alpha[...])", "jnp.exp(self.log_alpha)")]
+        _decide(ck, nf, "R4-sac", qual, "alpha-is-exp-log-alpha", "alpha()", got, wants, "alpha must be exp(log_alpha) (positive, trained in log space)", loc(f._module, f),
+                shown=f"return {got.canon()[:120]}")
     ck.guard(_section_2)
 
-    def _section_3():
+    def _site(uq, lq, actor_params):
         # ---- differentiated argument is the actor ---------------------------------------------------------------------
-        for uq, (lq, actor_params) in ACTOR_SITES.items():
-            fn = repo.func(uq)
-            mi = fn._module
-            sites = [s for s in grad_sites(repo, fn, mi)]
-            ck.need(len(sites) == 1, f"{uq}: expected one gradient site, found {len(sites)}")
-            s = sites[0]
-            got_loss = repo.resolve_expr(mi, s["loss"]) if isinstance(s["loss"], (ast.Name, ast.Attribute)) else None
-            okl = got_loss == lq
-            if not okl and (got_loss is None or got_loss not in _known_names()):
-                # a new wrapper / adapter around the loss: which objective is differentiated, and with respect to what, is not read here
-                ck.incomplete.append(f"{uq}: differentiates `{short(s['loss'], 50)}`, not the documented loss function itself (unrecognised form)")
-                continue
-            rule = FORMULAS.get(lq, ("R3-dpg",))[0]
-            ck.ob(rule, uq, "differentiates-documented-loss", okl, f"value_and_grad({short(s['loss'])})", "" if okl else f"documented objective is {lq.rsplit('.', 1)[1]}", loc(mi, s["app"]))
-            if not okl:
-                continue
-            lp = positional_params(repo.func(lq))
-            diffp = [lp[k] if k < len(lp) else None for k in s["argnums"]]
-            ok = diffp == actor_params
-            ck.ob(rule, uq, "gradient-reaches-actor-only", ok, f"argnums={s['argnums']} -> parameters {diffp} of {lq.rsplit('.', 1)[1]}",
-                  "" if ok else f"the objective must be differentiated with respect to {actor_params} only", loc(mi, s["app"]))
-            # the remaining arguments are bound by position to the loss parameters: role transfer
-            b = {lp[i]: a for i, a in enumerate(s["app"].args) if i < len(lp)}
-            for pname, a in b.items():
-                # arguments must be plain values of the routine (names / attributes / calls evaluated outside the differentiated function)
-                pass
-            _role_transfer(ck, repo, nf, uq, fn, lq, b, s, rule)
+        fn = repo.func(uq)
+        mi = fn._module
+        sites = [s for s in grad_sites(repo, fn, mi)]
+        ck.need(len(sites) == 1, f"{uq}: expected one gradient site, found {len(sites)}")
+        s = sites[0]
+        got_loss = repo.resolve_expr(mi, s["loss"]) if isinstance(s["loss"], (ast.Name, ast.Attribute)) else None
+        okl = got_loss == lq
+        if not okl and (got_loss is None or got_loss not in _known_names()):
+            # a new wrapper / adapter around the loss: which objective is differentiated, and with respect to what, is not read here
+            raise AnalysisError(f"{uq}: differentiates `{short(s['loss'], 50)}`, not the documented loss function itself (unrecognised form)")
+        rule = FORMULAS.get(lq, ("R3-dpg",))[0]
+        ck.ob(rule, uq, "differentiates-documented-loss", okl, f"value_and_grad({short(s['loss'])})", "" if okl else f"documented objective is {lq.rsplit('.', 1)[1]}", loc(mi, s["app"]))
+        if not okl:
+            return
+        lfn = repo.func(lq)
+        lp = positional_params(lfn)
+        lren = _renames(repo, lq)
+        diffp = [lp[k] if isinstance(k, int) and 0 <= k < len(lp) else None for k in s["argnums"]]
+        if None in diffp:
+            raise AnalysisError(f"{uq}: argnums={s['argnums']} do not name positional parameters of {lq.rsplit('.', 1)[1]}{tuple(lp)} (unrecognised form)")
+        wantp = [lren[p] for p in actor_params]
+        ok = sorted(diffp) == sorted(wantp)
+        ck.ob(rule, uq, "gradient-reaches-actor-only", ok, f"argnums={s['argnums']} -> parameters {diffp} of {lq.rsplit('.', 1)[1]}",
+              "" if ok else f"the objective must be differentiated with respect to {wantp} only", loc(mi, s["app"]))
+        # the arguments are bound to the loss parameters by its signature: role transfer
+        _role_transfer(ck, repo, nf, uq, fn, lq, _bind_app(uq, s["app"], lfn), s, rule)
 
-        _pg_weights(ck, repo, nf)
-        _ppo_update(ck, repo, nf)
-        _value_shapes(ck, repo)
-    ck.guard(_section_3)
+    for uq, (lq, actor_params) in ACTOR_SITES.items():
+        ck.guard(_site, uq, lq, actor_params)
+    ck.guard(_pg_weights, ck, repo, nf)
+    ck.guard(_a2c_normalised, ck, repo, nf)
+    ck.guard(_ppo_update, ck, repo, nf)
+    ck.guard(_value_shapes, ck, repo)
+
+
+def _bind_app(uq, app: ast.Call, lfn) -> dict:
+    """Loss parameter -> argument expression of the application of the differentiated loss (positional and keyword arguments)."""
+    if any(isinstance(a, ast.Starred) for a in app.args) or any(k.arg is None for k in app.keywords):
+        raise AnalysisError(f"{uq}: the loss is applied to packed arguments `{short(app, 70)}` (cannot bind them to the parameters of {lfn.name}) (unrecognised form)")
+    lp = positional_params(lfn)
+    if len(app.args) > len(lp) and not lfn.args.vararg:
+        raise AnalysisError(f"{uq}: `{short(app, 70)}` passes more arguments than {lfn.name} has parameters (unrecognised form)")
+    b = {lp[i]: a for i, a in enumerate(app.args) if i < len(lp)}
+    names = set(param_names(lfn))
+    for k in app.keywords:
+        if k.arg not in names:
+            raise AnalysisError(f"{uq}: keyword `{k.arg}` of `{short(app, 70)}` is not a parameter of {lfn.name} (unrecognised form)")
+        b[k.arg] = k.value
+    return b
+
+
+def _app_node(cfg, uq, site):
+    """CFG node of the application (of the written call when the site was rewritten through a local wrapper)."""
+    for app in (site["app"], getattr(site["app"], "_original", None)):
+        if app is None:
+            continue
+        try:
+            return cfg.node_of(app).id
+        except (KeyError, AttributeError):
+            continue
+    raise AnalysisError(f"{uq}: the gradient application `{short(site['app'], 60)}` is not a statement of the routine itself (nested function) (unrecognised form)")
 
 
 def _value_shapes(ck, repo):
@@ -173,8 +527,10 @@ def _value_shapes(ck, repo):
     ]
     for q, env, mods in cases:
         fn = repo.func(q)
+        ren = _renames(repo, q)
+        env = {ren.get(k, k): v for k, v in env.items()}
         se = ShapeEngine(repo)
-        se.module_out = dict(mods)
+        se.module_out = {ren.get(k, k): v for k, v in mods.items()}
         se.analyse(fn, fn._module, q, env)
         if not se.alarms:
             ck.ob("R5-value-shapes", q, "shapes", True, f"no shape alarm with {env} and critic output (B,1); {len(se.trace)} expressions typed", "", loc(fn._module, fn))
@@ -182,176 +538,267 @@ def _value_shapes(ck, repo):
             ck.ob("R5-value-shapes", q, f"shape:{kind}", False, f"{kind}", text + " - the term is not the per-sample squared error / weight", f"{rel}:{line}")
 
 
-# loss parameter -> position of the update routine's own parameter it must receive (recorded from the tree the checker was built
-# for; positions, not names: renaming a parameter of the routine leaves the rule unchanged); string = attribute path of a parameter
-ROLE_POS = {
-    "rl_blox.algorithm.ddpg.ddpg_update_actor": {"q": 2, "observation": 3, "policy": 0},
-    "rl_blox.algorithm.td7.td7_update_actor": {"embedding": (0, "embedding"), "critic": 2, "observation": 3, "actor": (0, "actor")},
-    "rl_blox.algorithm.sac.sac_update_actor": {"policy": 0, "q": 2, "alpha": 5, "action_key": 3, "observations": 4},
-    "rl_blox.algorithm.sac._update_entropy_coefficient": {"policy": 1, "target_entropy": 2, "action_key": 3, "observations": 4, "alpha": 5},
-    "rl_blox.algorithm.ppo.update_ppo": {"actor": 0, "critic": 1, "observations": 4, "actions": 5},
-    "rl_blox.algorithm.reinforce.reinforce_gradient": {"observation": 2, "action": 3, "policy": 0},
-    "rl_blox.algorithm.actor_critic.actor_critic_policy_gradient": {"observation": 2, "action": 3, "policy": 0},
-    "rl_blox.algorithm.a2c.a2c_policy_gradient": {"observation": 1, "action": 2, "weight": 3, "policy": 0},
+# loss parameter -> what the update routine must pass for it, written with the routine's recorded parameter names (a renamed
+# parameter of the routine or of the loss keeps its role: both sides go through _renames)
+ROLES = {
+    "rl_blox.algorithm.ddpg.ddpg_update_actor": {"q": "q", "observation": "observation", "policy": "policy"},
+    "rl_blox.algorithm.td7.td7_update_actor": {"embedding": "policy.embedding", "critic": "critic", "observation": "observation", "actor": "policy.actor"},
+    "rl_blox.algorithm.sac.sac_update_actor": {"policy": "policy", "q": "q", "alpha": "alpha", "action_key": "action_key", "observations": "observation"},
+    "rl_blox.algorithm.sac._update_entropy_coefficient": {"policy": "policy", "target_entropy": "target_entropy", "action_key": "action_key", "observations": "observations", "alpha": "log_alpha"},
+    "rl_blox.algorithm.ppo.update_ppo": {"actor": "actor", "critic": "critic", "observations": "observation", "actions": "action"},
+    "rl_blox.algorithm.reinforce.reinforce_gradient": {"observation": "observations", "action": "actions", "policy": "policy"},
+    "rl_blox.algorithm.actor_critic.actor_critic_policy_gradient": {"observation": "observations", "action": "actions", "policy": "policy"},
+    "rl_blox.algorithm.a2c.a2c_policy_gradient": {"observation": "observations", "action": "actions", "weight": "advantages", "policy": "policy"},
 }
 
 
+def _own_tokens(ren: dict, *spec_texts) -> set:
+    """Names a value may be made of to count as 'built from the routine's own documented parameters': the parameters of the recorded
+    signature (under their current names; a parameter that was added later has no documented provenance) and the attribute names
+    the recorded roles use."""
+    out = set(ren.values())
+    for t in spec_texts:
+        out |= {n.attr for n in ast.walk(parse_expr(t)) if isinstance(n, ast.Attribute)}
+    return out
+
+
 def _role_transfer(ck, repo, nf, uq, fn, lq, b, site, rule):
-    """Each loss parameter with a recorded counterpart must receive that parameter of the update routine (by position; local aliases
-    and keyword / star calls are resolved by the normal form at the application)."""
+    """Each loss parameter with a recorded counterpart must receive that parameter of the update routine (local aliases, keyword
+    arguments and value-transparent conversions are resolved by the normal form at the application).  Another parameter of the
+    routine in its place is a violation; a value that is not made of the routine's parameters is not read."""
     mi = fn._module
-    up = param_names(fn)
     cfg = nf.cfg_of(fn)
-    try:
-        at = cfg.node_of(site["app"]).id
-    except KeyError:
-        at = None
-    sc = Scope(cfg, mi, {p: Poly.atom(p, {p}, {p}) for p in up}, uq)
-    for pname, pos in ROLE_POS.get(uq, {}).items():
-        a = b.get(pname)
+    at = _app_node(cfg, uq, site)
+    uren, lren = _renames(repo, uq), _renames(repo, lq)
+    env = _env(fn)
+    sc = Scope(cfg, mi, env, uq)
+    roles = ROLES.get(uq, {})
+    own = _own_tokens(uren, *roles.values()) | BASIC_EXTRAS
+    for pname, text in roles.items():
+        a = b.get(lren[pname])
         if a is None:
-            continue
-        if isinstance(pos, tuple):
-            want = f"{up[pos[0]]}.{pos[1]}" if pos[0] < len(up) else None
-        else:
-            want = up[pos] if pos < len(up) else None
-        if want is None:
-            raise AnalysisError(f"{uq}: signature has fewer parameters than when the role table was recorded")
-        got = nf.poly(a, sc, at).canon() if at is not None else ast.unparse(a)
-        ok = got == want
-        ck.ob(rule, uq, f"arg:{pname}", ok, f"{pname} <- {got[:60]}", "" if ok else f"the loss parameter `{pname}` receives `{got[:60]}` instead of the routine's `{want}`", loc(mi, site["app"]))
+            raise AnalysisError(f"{uq}: no argument is bound to `{lren[pname]}` in `{short(site['app'], 70)}` (unrecognised form)")
+        want = nf.poly(_spec(text, uren), Scope(None, mi, env, uq), None)
+        got = nf.poly(a, sc, at)
+        _decide(ck, nf, rule, uq, f"arg:{pname}", f"the argument for `{lren[pname]}`", got, [want], f"the loss parameter `{lren[pname]}` must receive the routine's `{want.canon()}`", loc(mi, site["app"]),
+                extras=own, shown=f"{lren[pname]} <- {got.canon()[:60]}")
 
 
 def _pg_weights(ck, repo, nf):
     """Weights of the three policy-gradient callers, per CFG path, computed outside the differentiated function."""
     specs = {
-        "rl_blox.algorithm.reinforce.reinforce_gradient": {
-            "weight_arg": 2,
-            "allowed": ["returns - value_function(observations)", "(returns - value_function(observations)) * gamma_discount",
-                        "returns - jnp.zeros_like(returns)", "(returns - jnp.zeros_like(returns)) * gamma_discount", "returns", "returns * gamma_discount"],
-        },
-        "rl_blox.algorithm.actor_critic.actor_critic_policy_gradient": {
-            "weight_arg": 2,
-            "allowed": ["gamma_discount * (rewards + gamma * value_function(next_observations) - value_function(observations))"],
-        },
-        "rl_blox.algorithm.a2c.a2c_policy_gradient": {"weight_arg": 2, "allowed": ["advantages"]},
+        "rl_blox.algorithm.reinforce.reinforce_gradient": ["returns - value_function(observations)", "(returns - value_function(observations)) * gamma_discount",
+                                                            "returns - jnp.zeros_like(returns)", "(returns - jnp.zeros_like(returns)) * gamma_discount", "returns", "returns * gamma_discount"],
+        "rl_blox.algorithm.actor_critic.actor_critic_policy_gradient": ["gamma_discount * (rewards + gamma * value_function(next_observations) - value_function(observations))"],
+        "rl_blox.algorithm.a2c.a2c_policy_gradient": ["advantages"],
     }
-    for q, sp in specs.items():
-        fn = repo.func(q)
-        mi = fn._module
-        cfg = nf.cfg_of(fn)
-        env = _env(fn)
-        gs_ = grad_sites(repo, fn, mi)
-        if not gs_:
-            raise AnalysisError(f"{q}: no gradient site found (anchor vanished)")
-        site = gs_[0]
-        tgt = cfg.node_of(site["app"]).id
-        paths = enumerate_paths(cfg, cfg.entry, {tgt})
-        allowed = [nf.poly(parse_expr(a), Scope(None, mi, env, q), None) for a in sp["allowed"]]
-        seen = set()
-        for p in paths:
-            pe = PathEval(nf, cfg, mi, q, env).run(p[:-1])
-            if len(site["app"].args) <= sp["weight_arg"] or any(isinstance(a_, ast.Starred) for a_ in site["app"].args):
-                raise AnalysisError(f"{q}: the weight argument of the gradient application `{short(site['app'], 60)}` is not passed positionally (unrecognised form)")
-            w = pe.ev(site["app"].args[sp["weight_arg"]])
-            c = w.canon()
-            if c in seen:
-                continue
-            seen.add(c)
-            ok = any(w == a for a in allowed)
-            ck.ob("R1-pseudo-loss", q, f"weights:{c[:80]}", ok, f"weights = {c[:150]}", "" if ok else "weights are not the documented (returns - baseline)[* gamma^t] / gamma^t * TD error / advantages", loc(mi, site["app"]))
-        ck.count("pg-weight-paths", len(paths))
+    lq = LQ + "stochastic_policy_gradient_pseudo_loss"
+    lfn = repo.func(lq)
+    wparam = _renames(repo, lq)["weight"]
+    for q, allowed_txt in specs.items():
+        def _one(q=q, allowed_txt=allowed_txt):
+            from ..sem import split_conditional_assignments
+            fn0 = repo.func(q)
+            mi = fn0._module
+            fn = split_conditional_assignments(fn0)          # `w = a if c else b` is read as two paths
+            cfg = nf.cfg_of(fn)
+            env = _env(fn)
+            ren = _renames(repo, q)
+            gs_ = grad_sites(repo, fn, mi)
+            if len(gs_) != 1:
+                raise AnalysisError(f"{q}: expected one gradient site, found {len(gs_)} (anchor vanished)")
+            site = gs_[0]
+            if not (isinstance(site["loss"], (ast.Name, ast.Attribute)) and repo.resolve_expr(mi, site["loss"]) == lq):
+                raise AnalysisError(f"{q}: differentiates `{short(site['loss'], 50)}`, not the pseudo-loss itself (unrecognised form)")
+            warg = _bind_app(q, site["app"], lfn).get(wparam)
+            if warg is None:
+                raise AnalysisError(f"{q}: no argument is bound to `{wparam}` in `{short(site['app'], 60)}` (unrecognised form)")
+            tgt = _app_node(cfg, q, site)
+            try:
+                paths = enumerate_paths(cfg, cfg.entry, {tgt})
+            except RuntimeError as e:
+                raise AnalysisError(f"{q}: {e} (unrecognised form)")
+            sc0 = Scope(None, mi, env, q)
+            allowed = [nf.poly(_spec(a, ren), sc0, None) for a in allowed_txt]
+            scalars = {nf.poly(_spec(s, ren), sc0, None).canon() for s in SCALARS.get(q, ())}
+            seen = set()
+            for p in paths:
+                pe = PathEval(nf, cfg, mi, q, env).run(p[:-1])
+                w = pe.ev(warg)
+                c = w.canon()
+                if c in seen:
+                    continue
+                seen.add(c)
+                _decide(ck, nf, "R1-pseudo-loss", q, f"weights:{c[:80]}", "the weight", w, allowed, "weights are not the documented (returns - baseline)[* gamma^t] / gamma^t * TD error / advantages", loc(mi, site["app"]),
+                        scalars, shown=f"weights = {c[:150]}")
+            ck.count("pg-weight-paths", len(paths))
+        ck.guard(_one)
+
+
+def _a2c_normalised(ck, repo, nf):
     # a2c: advantages are normalised outside the differentiated function
     q = "rl_blox.algorithm.a2c.train_policy_a2c"
+    gq = "rl_blox.algorithm.a2c.a2c_policy_gradient"
     fn = repo.func(q)
     mi = fn._module
     cfg = nf.cfg_of(fn)
     env = _env(fn)
-    calls = [(n, c) for n in cfg.nodes if n.ast is not None and n.kind == "stmt" for c in ast.walk(n.ast) if isinstance(c, ast.Call) and dotted(c.func) == "a2c_policy_gradient"]
+    calls = [(n, c) for n in cfg.nodes if n.ast is not None and n.kind == "stmt" for c in ast.walk(n.ast)
+             if isinstance(c, ast.Call) and isinstance(c.func, (ast.Name, ast.Attribute)) and (repo.resolve_expr(mi, c.func) == gq or dotted(c.func) == "a2c_policy_gradient")]
     ck.need(len(calls) == 1, f"{q}: a2c_policy_gradient call not found")
     n, c = calls[0]
     sc = Scope(cfg, mi, env, q)
-    b = bind_call(repo.func("rl_blox.algorithm.a2c.a2c_policy_gradient"), c)
-    got = nf.poly(b["advantages"], sc, n.id)
-    want = nf.poly(parse_expr("(advantages - jnp.mean(advantages)) / (jnp.std(advantages) + 1e-8)"), Scope(None, mi, env, q), None)
-    ck.ob("R1-pseudo-loss", q, "normalised-advantages", got == want, f"weights = {got.canon()[:140]}", "" if got == want else "A2C weights must be (A - mean A) / (std A + 1e-8)", loc(mi, c))
+    if any(isinstance(a, ast.Starred) for a in c.args) or any(k.arg is None for k in c.keywords):
+        raise AnalysisError(f"{q}: `{short(c, 70)}` passes packed arguments (unrecognised form)")
+    padv = _renames(repo, gq)["advantages"]
+    a = bind_call(repo.func(gq), c).get(padv)
+    if a is None:
+        raise AnalysisError(f"{q}: no argument is bound to `{padv}` in `{short(c, 70)}` (unrecognised form)")
+    got = nf.poly(a, sc, n.id)
+    want = nf.poly(_spec("(advantages - jnp.mean(advantages)) / (jnp.std(advantages) + 1e-8)", _renames(repo, q)), Scope(None, mi, env, q), None)
+    _decide(ck, nf, "R1-pseudo-loss", q, "normalised-advantages", "the weight", got, [want], "A2C weights must be (A - mean A) / (std A + 1e-8)", loc(mi, c), shown=f"weights = {got.canon()[:140]}")
+
+
+def _evaluations(cfg, e, at, seen=None):
+    """(CFG node, call) for every call that is evaluated to produce the value of expression ``e`` at node ``at``: the calls written
+    in the expression and, through the reaching definitions of its local names, those of the statements that computed them."""
+    seen = set() if seen is None else seen
+    out = [(at, c) for c in ast.walk(e) if isinstance(c, ast.Call)]
+    for n in ast.walk(e):
+        if not (isinstance(n, ast.Name) and isinstance(n.ctx, ast.Load)):
+            continue
+        for d in cfg.defs_of(at, n.id):
+            if d.kind == "param" or (d.node, d.name) in seen:
+                continue
+            seen.add((d.node, d.name))
+            if d.kind in ("assign", "unpack", "walrus") and isinstance(d.value, ast.expr):
+                out += _evaluations(cfg, d.value, d.node, seen)
+            elif d.kind == "aug" and isinstance(d.value, ast.AugAssign):
+                out += _evaluations(cfg, d.value.value, d.node, seen)
+                out += _evaluations(cfg, ast.Name(id=d.name, ctx=ast.Load()), d.node, seen)
+            elif d.kind in ("import", "funcdef", "classdef"):
+                continue
+            else:
+                raise AnalysisError(f"`{d.name}` is bound by a {d.kind} statement")
+    return out
 
 
 def _ppo_update(ck, repo, nf):
     q = "rl_blox.algorithm.ppo.update_ppo"
+    lq = "rl_blox.algorithm.ppo.ppo_loss"
+    gq = "rl_blox.blox.gae.compute_gae"
     fn = repo.func(q)
     mi = fn._module
     cfg = nf.cfg_of(fn)
     env = _env(fn)
-    site = grad_sites(repo, fn, mi)[0]
-    at = cfg.node_of(site["app"]).id
-    lp = positional_params(repo.func("rl_blox.algorithm.ppo.ppo_loss"))
-    if any(isinstance(a, ast.Starred) for a in site["app"].args) or any(k.arg is None for k in site["app"].keywords):
-        raise AnalysisError(f"{q}: the loss is applied to packed arguments `{short(site['app'], 70)}` (cannot bind them to the parameters of ppo_loss)")
-    b = {lp[i]: a for i, a in enumerate(site["app"].args) if i < len(lp)}
-    b.update({k.arg: k.value for k in site["app"].keywords if k.arg in lp})
+    sites = grad_sites(repo, fn, mi)
+    ck.need(len(sites) == 1, f"{q}: expected one gradient site, found {len(sites)}")
+    site = sites[0]
+    if not (isinstance(site["loss"], (ast.Name, ast.Attribute)) and repo.resolve_expr(mi, site["loss"]) == lq):
+        raise AnalysisError(f"{q}: differentiates `{short(site['loss'], 50)}`, not ppo_loss itself (unrecognised form)")
+    at = _app_node(cfg, q, site)
+    uren, lren, gren = _renames(repo, q), _renames(repo, lq), _renames(repo, gq)
+    b = _bind_app(q, site["app"], repo.func(lq))
     sc = Scope(cfg, mi, env, q)
+    sc0 = Scope(None, mi, env, q)
     where = loc(mi, site["app"])
-    old = b.get("old_logps")
-    if old is None:
-        raise AnalysisError(f"{q}: no argument is bound to `old_logps` in `{short(site['app'], 70)}` (unrecognised form)")
-    okn = isinstance(old, ast.Name)
-    ck.ob("R2-ppo", q, "old-logp-is-variable", okn, f"old_logps <- {short(old) if old is not None else None}", "" if okn else "old log-probabilities must be a value computed before the epoch loop", where)
-    if okn:
-        ds = cfg.defs_of(at, old.id)
+    own = _own_tokens(uren) | BASIC_EXTRAS | {"log_probability"}
+
+    def arg(pname):
+        a = b.get(lren[pname])
+        if a is None:
+            raise AnalysisError(f"{q}: no argument is bound to `{lren[pname]}` in `{short(site['app'], 70)}` (unrecognised form)")
+        return a
+
+    want_lp = nf.poly(_spec("actor.log_probability(observation, action)", uren), sc0, None)
+
+    def _old_same_data():
+        v = nf.poly(arg("old_logps"), sc, at)
+        if v != want_lp and "log_probability" not in ingredient_tokens(v):
+            # e.g. log-probabilities recorded during the rollout and handed in: their provenance is outside this routine
+            raise AnalysisError(f"{q}: `{lren['old_logps']}` receives `{v.canon()[:80]}`, which is not computed from the actor in this routine (unrecognised form)")
+        _decide(ck, nf, "R2-ppo", q, "old-logp-same-data", "logp_old", v, [want_lp], "logp_old must be actor.log_probability(observation, action) on the same batch that is optimised", where,
+                extras=own, shown=f"logp_old = {v.canon()[:100]}")
+    ck.guard(_old_same_data)
+
+    def _old_fixed():
+        # where the log-probabilities that reach `old_logps` are evaluated: a path witness (the evaluation sits inside a loop that
+        # also encloses the gradient step) is the evidence; not finding the evaluation is not
+        old = arg("old_logps")
         loops = cfg.enclosing_loops(at)
-        outside = len(ds) == 1 and ds[0].kind == "assign" and not (set(cfg.enclosing_loops(ds[0].node)) & set(loops))
-        ck.ob("R2-ppo", q, "old-logp-fixed-before-epochs", outside, f"`{old.id}` defined at line {cfg.nodes[ds[0].node].lineno if ds else '?'}, epoch loop at line {cfg.nodes[loops[0]].lineno if loops else '?'}",
-              "" if outside else "logp_old is recomputed inside the epoch loop: the ratio is always 1 and clipping never acts", where)
-        v = nf.poly(old, sc, at)
-        want = nf.poly(parse_expr("actor.log_probability(observation, action)"), Scope(None, mi, env, q), None)
-        ck.ob("R2-ppo", q, "old-logp-same-data", v == want, f"logp_old = {v.canon()[:100]}", "" if v == want else "logp_old must be actor.log_probability(observation, action) on the same batch that is optimised", where)
-    up_ = param_names(fn)
-    for pname, pos in (("observations", 4), ("actions", 5)):
-        a = b.get(pname)
-        got_ = nf.poly(a, sc, at).canon() if a is not None else None
-        ok = pos < len(up_) and got_ == up_[pos]
-        ck.ob("R2-ppo", q, f"arg:{pname}", ok, f"{pname} <- {got_}", "" if ok else f"`{pname}` must be the rollout's `{up_[pos] if pos < len(up_) else '?'}`", where)
+        try:
+            evals = _evaluations(cfg, old, at)
+        except AnalysisError as e:
+            raise AnalysisError(f"{q}: where `{short(old, 40)}` is computed is not read: {e} (unrecognised form)")
+        def computes(c, nid):
+            # the call produces the log-probabilities, and none of its operands already is that value (stop_gradient(logp),
+            # jnp.asarray(logp), logp.squeeze() pass a computed value on)
+            if nf.poly(c, sc, nid) != want_lp:
+                return False
+            operands = list(c.args) + [k.value for k in c.keywords] + ([c.func.value] if isinstance(c.func, ast.Attribute) else [])
+            return not any(nf.poly(o.value if isinstance(o, ast.Starred) else o, sc, nid) == want_lp for o in operands)
+        lp = [nid for nid, c in evals if computes(c, nid)]
+        if not lp:
+            raise AnalysisError(f"{q}: the evaluation of the log-probabilities passed as `{lren['old_logps']}` was not found (unrecognised form)")
+        inside = [nid for nid in lp if set(cfg.enclosing_loops(nid)) & set(loops)]
+        ck.ob("R2-ppo", q, "old-logp-fixed-before-epochs", not inside,
+              f"log-probabilities for `{lren['old_logps']}` evaluated at line {', '.join(str(cfg.nodes[x].lineno) for x in sorted(set(lp)))}, epoch loop at line {cfg.nodes[loops[0]].lineno if loops else '-'}",
+              "" if not inside else "logp_old is recomputed inside the epoch loop: the ratio is always 1 and clipping never acts", where)
+    ck.guard(_old_fixed)
+
     # advantages / returns come from compute_gae in that order
-    adv, ret = b.get("advantages"), b.get("returns")
-    okg = False
-    if isinstance(adv, ast.Name) and isinstance(ret, ast.Name):
-        da, dr = cfg.defs_of(at, adv.id), cfg.defs_of(at, ret.id)
-        if len(da) == 1 and len(dr) == 1 and da[0].node == dr[0].node and da[0].kind == "unpack" and da[0].path == (0,) and dr[0].path == (1,) \
-                and isinstance(da[0].value, ast.Call) and dotted(da[0].value.func) == "compute_gae":
-            okg = True
-            g = da[0].value
-            gfn = repo.func("rl_blox.blox.gae.compute_gae")
-            gb = bind_call(gfn, g)
-            got = {k: nf.poly(v, sc, da[0].node).canon() for k, v in gb.items()}
-            want = {"rewards": "reward", "values": "critic(observation)", "next_values": "next_value", "terminateds": "terminated"}
-            okk = got == want
-            ck.ob("R2-ppo", q, "gae-arguments", okk, f"compute_gae({got})", "" if okk else f"expected {want}", loc(mi, g))
-    if not okg and adv is not None and ret is not None:
-        # other read forms of the same result: by field name, by index, through locals
-        nfc = NF(repo, inline_depth=1, inline_calls=False)
-        ca, cr = nfc.poly(adv, Scope(cfg, mi, env, q), at).canon(), nfc.poly(ret, Scope(cfg, mi, env, q), at).canon()
-        pre = "rl_blox.blox.gae.compute_gae("
-        for sfx_a, sfx_r in ((".advantages", ".returns"), ("[0]", "[1]")):
-            if ca.startswith(pre) and cr.startswith(pre) and ca.endswith(sfx_a) and cr.endswith(sfx_r) and ca[: -len(sfx_a)] == cr[: -len(sfx_r)]:
-                okg = True
-                call_txt = ca[: -len(sfx_a)]
-                m_ = nfc.meta.get(call_txt, {})
-                gp = positional_params(repo.func("rl_blox.blox.gae.compute_gae"))
-                got = {gp[i]: a_.canon() for i, a_ in enumerate(m_.get("args", [])) if i < len(gp)}
-                got.update({k: v.canon() for k, v in m_.get("kws", {}).items()})
-                want = {"rewards": "reward", "values": "critic(observation)", "next_values": "next_value", "terminateds": "terminated"}
-                okk = {k: got.get(k) for k in want} == want
-                ck.ob("R2-ppo", q, "gae-arguments", okk, f"compute_gae({got})", "" if okk else f"expected {want}", where)
-        if not okg and (pre not in ca or pre not in cr):
-            pass   # not derived from compute_gae at all: violation below
-        elif not okg and not ((ca.endswith(".returns") or ca.endswith("[1]")) and (cr.endswith(".advantages") or cr.endswith("[0]"))):
-            raise AnalysisError(f"{q}: advantages / returns are read from the GAE result as `{ca[-40:]}` / `{cr[-40:]}` (unrecognised idiom)")
-    ck.ob("R2-ppo", q, "advantages-returns-from-gae", okg, f"advantages <- {short(adv) if adv is not None else None}, returns <- {short(ret) if ret is not None else None}",
-          "" if okg else "advantages and returns must be the (first, second) result of compute_gae", where)
+    def _gae():
+        adv, ret = arg("advantages"), arg("returns")
+        gfn = repo.func(gq)
+        roles = {"rewards": "reward", "values": "critic(observation)", "next_values": "next_value", "terminateds": "terminated"}
+        order = None       # (position of the result that is passed as advantages, ... as returns)
+        got, use_nf, where_g = None, nf, where
+        if isinstance(adv, ast.Name) and isinstance(ret, ast.Name):
+            da, dr = cfg.defs_of(at, adv.id), cfg.defs_of(at, ret.id)
+            if len(da) == 1 and len(dr) == 1 and da[0].node == dr[0].node and da[0].kind == "unpack" and dr[0].kind == "unpack" and {da[0].path, dr[0].path} == {(0,), (1,)} \
+                    and isinstance(da[0].value, ast.Call) and isinstance(da[0].value.func, (ast.Name, ast.Attribute)) and repo.resolve_expr(mi, da[0].value.func) == gq:
+                g = da[0].value
+                if any(isinstance(a_, ast.Starred) for a_ in g.args) or any(k.arg is None for k in g.keywords):
+                    raise AnalysisError(f"{q}: `{short(g, 70)}` passes packed arguments (unrecognised form)")
+                order = (da[0].path[0], dr[0].path[0])
+                got = {k: nf.poly(v, sc, da[0].node) for k, v in bind_call(gfn, g).items() if not k.startswith("*")}
+                where_g = loc(mi, g)
+        if order is None:
+            # other read forms of the same result: by field name, by index, through locals
+            nfc = NF(repo, inline_depth=1, inline_calls=False)
+            pa, pr = nfc.poly(adv, Scope(cfg, mi, env, q), at), nfc.poly(ret, Scope(cfg, mi, env, q), at)
+            ca, cr = pa.canon(), pr.canon()
+
+            def split(c):
+                for sfx, i in ((".advantages", 0), (".returns", 1), ("[0]", 0), ("[1]", 1)):
+                    if c.endswith(sfx) and nfc.meta.get(c[: -len(sfx)], {}).get("fn") == gq:
+                        return c[: -len(sfx)], i
+                return None, None
+            (call_a, ia), (call_r, ir) = split(ca), split(cr)
+            if call_a is None or call_r is None or call_a != call_r or {ia, ir} != {0, 1}:
+                raise AnalysisError(f"{q}: advantages / returns are passed as `{ca[-60:]}` / `{cr[-60:]}`: not read as the two results of one compute_gae call (unrecognised idiom)")
+            order = (ia, ir)
+            m_ = nfc.meta[call_a]
+            gp = positional_params(gfn)
+            got = {gp[i]: a_ for i, a_ in enumerate(m_.get("args", [])) if i < len(gp)}
+            got.update(m_.get("kws", {}))
+            use_nf = nfc
+        okg = order == (0, 1)
+        ck.ob("R2-ppo", q, "advantages-returns-from-gae", okg, f"advantages <- {short(adv)} (result {order[0]} of compute_gae), returns <- {short(ret)} (result {order[1]})",
+              "" if okg else "advantages and returns must be the (first, second) result of compute_gae", where)
+        for rname, text in roles.items():
+            gv = got.get(gren[rname])
+            if gv is None:
+                raise AnalysisError(f"{q}: no argument is bound to `{gren[rname]}` of compute_gae (unrecognised form)")
+            wv = use_nf.poly(_spec(text, uren), sc0, None)
+            _decide(ck, use_nf, "R2-ppo", q, f"gae-arguments:{rname}", f"the argument for `{gren[rname]}` of compute_gae", gv, [wv], f"compute_gae must receive the rollout's `{wv.canon()}` as `{gren[rname]}`", where_g,
+                    extras=own, shown=f"compute_gae({gren[rname]} <- {gv.canon()[:80]})")
+    ck.guard(_gae)
 
 
 _L = "rl_blox/blox/losses.py"
+_PPO = "rl_blox/algorithm/ppo.py"
+_SAC = "rl_blox/algorithm/sac.py"
 MUTANTS = [
     {"id": "c12-pseudo-sign", "file": _L, "rule": "R1", "find": "    return -jnp.mean(weight * logp)", "replace": "    return jnp.mean(weight * logp)"},
     {"id": "c12-pseudo-sum", "file": _L, "rule": "R1", "find": "    return -jnp.mean(weight * logp)", "replace": "    return -jnp.sum(weight * logp)"},
@@ -362,32 +809,71 @@ MUTANTS = [
     {"id": "c12-reinforce-discount-twice", "file": "rl_blox/algorithm/reinforce.py", "rule": "R1", "find": "        weights *= gamma_discount", "replace": "        weights *= gamma_discount * gamma_discount"},
     {"id": "c12-ac-td-sign", "file": "rl_blox/algorithm/actor_critic.py", "rule": "R1", "find": "    td_bootstrap_estimate = rewards + gamma * v_next - v", "replace": "    td_bootstrap_estimate = rewards + gamma * v - v_next"},
     {"id": "c12-a2c-no-centering", "file": "rl_blox/algorithm/a2c.py", "rule": "R1", "find": "    normalized_advantages = (advantages - adv_mean) / adv_std", "replace": "    normalized_advantages = advantages / adv_std"},
-    {"id": "c12-ppo-maximum", "file": "rl_blox/algorithm/ppo.py", "rule": "R2", "find": "    policy_loss = -jnp.mean(jnp.minimum(surrogate1, surrogate2))", "replace": "    policy_loss = -jnp.mean(jnp.maximum(surrogate1, surrogate2))"},
-    {"id": "c12-ppo-clip-range", "file": "rl_blox/algorithm/ppo.py", "rule": "R2", "find": "jnp.clip(ratios, 1 - clip, 1 + clip)", "replace": "jnp.clip(ratios, 1 - clip, 1 + 2 * clip)"},
-    {"id": "c12-ppo-ratio-inverted", "file": "rl_blox/algorithm/ppo.py", "rule": "R2", "find": "    ratios = jnp.exp(logps - old_logps)", "replace": "    ratios = jnp.exp(old_logps - logps)"},
-    {"id": "c12-ppo-entropy-sign", "file": "rl_blox/algorithm/ppo.py", "rule": "R2", "find": "        - 0.01 * actor.entropy(observations).mean()", "replace": "        + 0.01 * actor.entropy(observations).mean()"},
-    {"id": "c12-ppo-logp-in-loop", "file": "rl_blox/algorithm/ppo.py", "rule": "R2", "find": "    logp = actor.log_probability(observation, action)\n    loss_grad_fn = nnx.value_and_grad(ppo_loss, argnums=(0, 1))\n\n    for _ in range(epochs):\n",
+    {"id": "c12-ppo-maximum", "file": _PPO, "rule": "R2", "find": "    policy_loss = -jnp.mean(jnp.minimum(surrogate1, surrogate2))", "replace": "    policy_loss = -jnp.mean(jnp.maximum(surrogate1, surrogate2))"},
+    {"id": "c12-ppo-clip-range", "file": _PPO, "rule": "R2", "find": "jnp.clip(ratios, 1 - clip, 1 + clip)", "replace": "jnp.clip(ratios, 1 - clip, 1 + 2 * clip)"},
+    {"id": "c12-ppo-ratio-inverted", "file": _PPO, "rule": "R2", "find": "    ratios = jnp.exp(logps - old_logps)", "replace": "    ratios = jnp.exp(old_logps - logps)"},
+    {"id": "c12-ppo-entropy-sign", "file": _PPO, "rule": "R2", "find": "        - 0.01 * actor.entropy(observations).mean()", "replace": "        + 0.01 * actor.entropy(observations).mean()"},
+    {"id": "c12-ppo-logp-in-loop", "file": _PPO, "rule": "R2", "find": "    logp = actor.log_probability(observation, action)\n    loss_grad_fn = nnx.value_and_grad(ppo_loss, argnums=(0, 1))\n\n    for _ in range(epochs):\n",
      "replace": "    loss_grad_fn = nnx.value_and_grad(ppo_loss, argnums=(0, 1))\n\n    for _ in range(epochs):\n        logp = actor.log_probability(observation, action)\n"},
-    {"id": "c12-ppo-adv-ret-swapped", "file": "rl_blox/algorithm/ppo.py", "rule": "R2", "find": "            actor, critic, logp, observation, action, advs, returns", "replace": "            actor, critic, logp, observation, action, returns, advs"},
-    {"id": "c12-sac-actor-sign", "file": "rl_blox/algorithm/sac.py", "rule": "R4", "find": "    actor_loss = (alpha * log_prob - q_value).mean()", "replace": "    actor_loss = (q_value - alpha * log_prob).mean()"},
-    {"id": "c12-sac-alpha-sign", "file": "rl_blox/algorithm/sac.py", "rule": "R4", "find": "    return (-alpha() * (log_prob + target_entropy)).mean()", "replace": "    return (alpha() * (log_prob + target_entropy)).mean()"},
-    {"id": "c12-sac-alpha-minus-target", "file": "rl_blox/algorithm/sac.py", "rule": "R4", "find": "    return (-alpha() * (log_prob + target_entropy)).mean()", "replace": "    return (-alpha() * (log_prob - target_entropy)).mean()"},
-    {"id": "c12-sac-alpha-not-exp", "file": "rl_blox/algorithm/sac.py", "rule": "R4", "find": "        return jnp.exp(self.log_alpha.value)", "replace": "        return jnp.abs(self.log_alpha.value)"},
-    {"id": "c12-sac-exploration-wrt-policy", "file": "rl_blox/algorithm/sac.py", "rule": "R4", "find": "        sac_exploration_loss, argnums=4", "replace": "        sac_exploration_loss, argnums=0"},
+    {"id": "c12-ppo-adv-ret-swapped", "file": _PPO, "rule": "R2", "find": "            actor, critic, logp, observation, action, advs, returns", "replace": "            actor, critic, logp, observation, action, returns, advs"},
+    {"id": "c12-sac-actor-sign", "file": _SAC, "rule": "R4", "find": "    actor_loss = (alpha * log_prob - q_value).mean()", "replace": "    actor_loss = (q_value - alpha * log_prob).mean()"},
+    {"id": "c12-sac-alpha-sign", "file": _SAC, "rule": "R4", "find": "    return (-alpha() * (log_prob + target_entropy)).mean()", "replace": "    return (alpha() * (log_prob + target_entropy)).mean()"},
+    {"id": "c12-sac-alpha-minus-target", "file": _SAC, "rule": "R4", "find": "    return (-alpha() * (log_prob + target_entropy)).mean()", "replace": "    return (-alpha() * (log_prob - target_entropy)).mean()"},
+    {"id": "c12-sac-alpha-not-exp", "file": _SAC, "rule": "R4", "find": "        return jnp.exp(self.log_alpha.value)", "replace": "        return jnp.abs(self.log_alpha.value)"},
+    {"id": "c12-sac-exploration-wrt-policy", "file": _SAC, "rule": "R4", "find": "        sac_exploration_loss, argnums=4", "replace": "        sac_exploration_loss, argnums=0"},
     {"id": "c12-td7-q1-only", "file": "rl_blox/algorithm/td7.py", "rule": "R3", "find": "    return -critic.mean(obs_act, zs=zs, zsa=zsa).mean()", "replace": "    return -critic.q1(obs_act, zs=zs, zsa=zsa).mean()"},
     {"id": "c12-mrq-penalty-sign", "file": "rl_blox/algorithm/mrq.py", "rule": "R3", "find": "    policy_loss = dpg_loss + activation_weight * policy_regularization", "replace": "    policy_loss = dpg_loss - activation_weight * policy_regularization"},
     {"id": "c12-mrq-penalty-on-action", "file": "rl_blox/algorithm/mrq.py", "rule": "R3", "find": "    policy_regularization = jnp.square(activation).mean()", "replace": "    policy_regularization = jnp.square(action).mean()"},
 ]
 MUTANTS += [
-    {"id": "c12-ppo-value-no-flatten", "file": "rl_blox/algorithm/ppo.py", "rule": "R5", "find": "    values = critic(observations).flatten()", "replace": "    values = critic(observations)"},
+    {"id": "c12-ppo-value-no-flatten", "file": _PPO, "rule": "R5", "find": "    values = critic(observations).flatten()", "replace": "    values = critic(observations)"},
     {"id": "c12-value-loss-no-squeeze", "file": _L, "rule": "R5", "find": "    values = v(observations).squeeze()  # squeeze Nx1-D -> N-D", "replace": "    values = v(observations)"},
     {"id": "c12-ac-no-squeeze", "file": "rl_blox/algorithm/actor_critic.py", "rule": "R5", "find": "    v_next = value_function(next_observations).squeeze()", "replace": "    v_next = value_function(next_observations)"},
-    {"id": "c12-sac-actor-no-squeeze", "file": "rl_blox/algorithm/sac.py", "rule": "R5", "find": "    q_value = q(obs_act).squeeze()\n    actor_loss", "replace": "    q_value = q(obs_act)\n    actor_loss"},
+    {"id": "c12-sac-actor-no-squeeze", "file": _SAC, "rule": "R5", "find": "    q_value = q(obs_act).squeeze()\n    actor_loss", "replace": "    q_value = q(obs_act)\n    actor_loss"},
+]
+# violation paths of the role / provenance rules (evidence: another parameter of the routine in the documented one's place, the
+# evaluation of logp_old written inside the epoch loop)
+MUTANTS += [
+    {"id": "c12-reinforce-obs-act-swapped", "file": "rl_blox/algorithm/reinforce.py", "rule": "R1", "find": "    )(observations, actions, weights, policy)", "replace": "    )(actions, observations, weights, policy)"},
+    {"id": "c12-sac-actor-wrong-observation-role", "file": _SAC, "rule": "R4", "find": "        policy, q, alpha, action_key, observation\n", "replace": "        policy, q, alpha, observation, action_key\n"},
+    {"id": "c12-ppo-gae-args-swapped", "file": _PPO, "rule": "R2", "find": "        reward, critic(observation).flatten(), next_value, terminated\n", "replace": "        reward, critic(observation).flatten(), terminated, next_value\n"},
+    {"id": "c12-ppo-logp-evaluated-at-the-step", "file": _PPO, "rule": "R2", "find": "            actor, critic, logp, observation, action, advs, returns", "replace": "            actor, critic, actor.log_probability(observation, action), observation, action, advs, returns"},
+    {"id": "c12-ppo-old-logp-other-data", "file": _PPO, "rule": "R2", "find": "    logp = actor.log_probability(observation, action)\n", "replace": "    logp = actor.log_probability(action, observation)\n"},
+    {"id": "c12-pseudo-logp-detached", "file": _L, "rule": "R1", "find": "    logp = policy.log_probability(observation, action)\n    chex", "replace": "    logp = jax.lax.stop_gradient(policy.log_probability(observation, action))\n    chex"},
+    {"id": "c12-ppo-value-detached", "file": _PPO, "rule": "R2", "find": "    values = critic(observations).flatten()", "replace": "    values = jax.lax.stop_gradient(critic(observations)).flatten()"},
+    {"id": "c12-ppo-max-of-negated-wrong-sign", "file": _PPO, "rule": "R2", "find": "    policy_loss = -jnp.mean(jnp.minimum(surrogate1, surrogate2))", "replace": "    policy_loss = jnp.mean(jnp.maximum(surrogate1, surrogate2))"},
+    {"id": "c12-sac-alpha-outside-mean-wrong-sign", "file": _SAC, "rule": "R4", "find": "    actor_loss = (alpha * log_prob - q_value).mean()", "replace": "    actor_loss = q_value.mean() - alpha * log_prob.mean()"},
 ]
 BENIGN = [
     {"id": "c12-b-pseudo-mean-neg", "file": _L, "find": "    return -jnp.mean(weight * logp)", "replace": "    return jnp.mean(-logp * weight)"},
-    {"id": "c12-b-ppo-commuted", "file": "rl_blox/algorithm/ppo.py", "find": "    surrogate1 = ratios * advantages", "replace": "    surrogate1 = advantages * ratios"},
-    {"id": "c12-b-ppo-value-sq", "file": "rl_blox/algorithm/ppo.py", "find": "    value_loss = jnp.mean((returns - values) ** 2)", "replace": "    value_loss = jnp.mean(jnp.square(values - returns))"},
-    {"id": "c12-b-sac-distribute", "file": "rl_blox/algorithm/sac.py", "find": "    actor_loss = (alpha * log_prob - q_value).mean()", "replace": "    actor_loss = (alpha * log_prob).mean() - q_value.mean()"},
+    {"id": "c12-b-ppo-commuted", "file": _PPO, "find": "    surrogate1 = ratios * advantages", "replace": "    surrogate1 = advantages * ratios"},
+    {"id": "c12-b-ppo-value-sq", "file": _PPO, "find": "    value_loss = jnp.mean((returns - values) ** 2)", "replace": "    value_loss = jnp.mean(jnp.square(values - returns))"},
+    {"id": "c12-b-sac-distribute", "file": _SAC, "find": "    actor_loss = (alpha * log_prob - q_value).mean()", "replace": "    actor_loss = (alpha * log_prob).mean() - q_value.mean()"},
     {"id": "c12-b-reinforce-weights-local", "file": "rl_blox/algorithm/reinforce.py", "find": "    weights = returns - baseline\n", "replace": "    advantages = returns - baseline\n    weights = advantages\n"},
+]
+# refactoring kinds the audit made the rules tolerant to
+BENIGN += [
+    # the Param is read through a local / with [...]
+    {"id": "c12-b-alpha-local-ellipsis", "file": _SAC, "find": "        return jnp.exp(self.log_alpha.value)", "replace": "        log_alpha = self.log_alpha[...]\n        return jnp.exp(log_alpha)"},
+    # renamed parameter of a loss (callers pass it by position): specs, differentiated parameter and role tables follow the position
+    {"id": "c12-b-pseudo-renamed-policy", "file": _L, "edits": [("    weight: jnp.ndarray,\n    policy: StochasticPolicyBase,", "    weight: jnp.ndarray,\n    pi: StochasticPolicyBase,"),
+                                                                   ("    logp = policy.log_probability(observation, action)\n    chex", "    logp = pi.log_probability(observation, action)\n    chex")]},
+    # renamed parameter of the update routine, an explicit default and keywords in the compute_gae call, keywords / stop_gradient at the gradient step
+    {"id": "c12-b-ppo-update-renamed-kw", "file": _PPO, "edits": [("    reward: jnp.ndarray,\n    terminated", "    rewards: jnp.ndarray,\n    terminated"),
+                                                                    ("        reward, critic(observation).flatten(), next_value, terminated\n", "        rewards, critic(observation).flatten(), next_values=next_value, terminateds=terminated, gamma=0.99\n"),
+                                                                    ("            actor, critic, logp, observation, action, advs, returns", "            actor, critic, jax.lax.stop_gradient(logp), observation, action, returns=returns, advantages=advs")]},
+    # equivalent spellings of the documented objective: max of the negated surrogates, ratio of exponentials, squared error as a product
+    {"id": "c12-b-ppo-equivalent-spellings", "file": _PPO, "edits": [("    policy_loss = -jnp.mean(jnp.minimum(surrogate1, surrogate2))", "    policy_loss = jnp.mean(jnp.maximum(-surrogate1, -surrogate2))"),
+                                                                       ("    ratios = jnp.exp(logps - old_logps)", "    ratios = jnp.exp(logps) / jnp.exp(old_logps)"),
+                                                                       ("    value_loss = jnp.mean((returns - values) ** 2)", "    err = returns - values\n    value_loss = jnp.mean(err * err)")]},
+    # stop_gradient on quantities that are constants of the gradient anyway (not computed from the differentiated parameter)
+    {"id": "c12-b-constants-detached", "file": _L, "find": "    logp = policy.log_probability(observation, action)\n    chex", "replace": "    weight = jax.lax.stop_gradient(weight)\n    logp = policy.log_probability(jax.lax.stop_gradient(observation), action)\n    chex"},
+    # the scalar temperature multiplies the mean instead of the samples
+    {"id": "c12-b-sac-alpha-outside-mean", "file": _SAC, "find": "    actor_loss = (alpha * log_prob - q_value).mean()", "replace": "    actor_loss = alpha * log_prob.mean() - q_value.mean()"},
+    # renamed parameters of a policy-gradient caller and keyword call of it
+    {"id": "c12-b-a2c-renamed-kw", "file": "rl_blox/algorithm/a2c.py", "edits": [("    actions: jnp.ndarray,\n    advantages: jnp.ndarray,\n) -> tuple[jnp.ndarray, jnp.ndarray]:", "    actions: jnp.ndarray,\n    weights: jnp.ndarray,\n) -> tuple[jnp.ndarray, jnp.ndarray]:"),
+                                                                                   ("    )(observations, actions, advantages, policy)", "    )(observations, actions, weights, policy)"),
+                                                                                   ("            actions,\n            normalized_advantages,\n", "            actions,\n            weights=normalized_advantages,\n")]},
+    {"id": "c12-b-reinforce-renamed-returns", "file": "rl_blox/algorithm/reinforce.py", "edits": [("    actions: jnp.ndarray,\n    returns: jnp.ndarray,\n    gamma_discount: jnp.ndarray | None = None,\n) -> tuple[jnp.ndarray, jnp.ndarray]:", "    actions: jnp.ndarray,\n    mc_returns: jnp.ndarray,\n    gamma_discount: jnp.ndarray | None = None,\n) -> tuple[jnp.ndarray, jnp.ndarray]:"),
+                                                                                                    ("        baseline = jnp.zeros_like(returns)\n    weights = returns - baseline", "        baseline = jnp.zeros_like(mc_returns)\n    weights = mc_returns - baseline")]},
 ]
